@@ -355,3 +355,801 @@ Proof.
   destruct (pat_mem text (a_pats a)) eqn:E; [assumption|].
   apply texts_unique_snoc; assumption.
 Qed.
+
+(* ======================================================= route compilation *)
+Lemma span_app_stop (p : Z -> bool) l rest :
+  forallb p l = true ->
+  match rest with [] => True | c :: _ => p c = false end ->
+  span p (l ++ rest) = (l, rest).
+Proof.
+  intros Hl Hr. induction l as [|x l IH]; cbn [List.app span].
+  - destruct rest as [|c r]; [reflexivity|]. cbn [span]. rewrite Hr. reflexivity.
+  - cbn [forallb] in Hl. apply andb_true_iff in Hl as [H1 H2].
+    rewrite H1, (IH H2). reflexivity.
+Qed.
+
+Lemma compile_parts_lits F l ps t :
+  compile_parts F (map PLit l ++ ps) = Ok t ->
+  exists t', compile_parts F ps = Ok t' /\ t = l ++ t'.
+Proof.
+  revert t. induction l as [|c l IH]; intros t H; cbn [map List.app] in H.
+  - exists t. auto.
+  - cbn [compile_parts] in H.
+    destruct (compile_parts F (map PLit l ++ ps)) as [u|] eqn:E; [|discriminate].
+    injection H as <-. destruct (IH u eq_refl) as (t' & H1 & ->).
+    exists t'. auto.
+Qed.
+
+Section Verbatim.
+  Variable U : uclass.
+
+  Lemma scan_lits f l t :
+    forallb (fun c => negb (c =? 60)) l = true -> (List.length l <= f)%nat ->
+    scan U f (l ++ t) = map PLit l ++ scan U (f - List.length l) t.
+  Proof.
+    revert f. induction l as [|c l IH]; intros f Hl Hf.
+    - cbn [List.app map List.length]. rewrite Nat.sub_0_r. reflexivity.
+    - cbn [forallb] in Hl. apply andb_true_iff in Hl as [H1 H2].
+      destruct f as [|f]; [cbn in Hf; lia|].
+      cbn [List.app scan map List.length]. apply negb_true_iff in H1.
+      rewrite H1. cbn [Nat.sub]. f_equal. apply IH; [assumption|].
+      cbn [List.length] in Hf. lia.
+  Qed.
+
+  Lemma try_group_re nm E l2 :
+    nm <> [] -> forallb (is_word U) nm = true ->
+    E <> [] -> forallb not_gt E = true ->
+    try_group U (nm ++ 58 :: 114 :: 101 :: 58 :: E ++ 62 :: l2) =
+    Some (nm, Some (58 :: 114 :: 101 :: 58 :: E), l2).
+  Proof.
+    intros Hn Hw He Hg. unfold try_group.
+    rewrite (span_app_stop (is_word U) nm); [|assumption|reflexivity].
+    destruct nm as [|x nm]; [congruence|].
+    replace (58 =? 62) with false by reflexivity.
+    replace (58 =? 58) with true by reflexivity.
+    change (114 :: 101 :: 58 :: E ++ 62 :: l2)
+      with (([114; 101; 58] ++ E) ++ 62 :: l2).
+    rewrite (span_app_stop not_gt ([114; 101; 58] ++ E));
+      [reflexivity| |reflexivity].
+    rewrite forallb_app, Hg. reflexivity.
+  Qed.
+
+  (* an inline expression reaches re.compile exactly as written (case
+     preserved), between "(?P<name>" and ")" *)
+  Theorem inline_re_verbatim F l1 nm E l2 t :
+    forallb (fun c => negb (c =? 60)) l1 = true ->
+    nm <> [] -> forallb (is_word U) nm = true ->
+    E <> [] -> forallb not_gt E = true ->
+    lget (str_lower (s2l ":re:" ++ E)) F = None ->
+    compile_text U F (l1 ++ [60] ++ nm ++ s2l ":re:" ++ E ++ [62] ++ l2) = Ok t ->
+    exists t2, t = l1 ++ s2l "(?P<" ++ nm ++ [62] ++ E ++ [41] ++ t2.
+  Proof.
+    intros Hl Hn Hw He Hg Hf H. unfold compile_text, scan_uri in H.
+    change (s2l ":re:") with [58; 114; 101; 58] in *.
+    rewrite scan_lits in H; [|assumption|rewrite app_length; lia].
+    apply compile_parts_lits in H as (t' & H & ->).
+    remember (List.length (l1 ++ _) - List.length l1)%nat as f eqn:Ef.
+    destruct f as [|f].
+    { rewrite !app_length in Ef. cbn [List.length] in Ef. lia. }
+    cbn [List.app scan] in H. replace (60 =? 60) with true in H by reflexivity.
+    rewrite try_group_re in H by assumption.
+    cbn [compile_parts] in H.
+    assert (R : regex_of F (Some (58 :: 114 :: 101 :: 58 :: E)) = Ok E).
+    { cbn [List.app] in Hf. unfold regex_of, filter_key. rewrite Hf. reflexivity. }
+    rewrite R in H.
+    destruct (compile_parts F (scan U f l2)) as [t2|]; [|discriminate].
+    injection H as <-. exists t2. reflexivity.
+  Qed.
+
+  (* with the built-in table every non-empty inline expression is verbatim *)
+  Lemma builtin_no_re_key E :
+    E <> [] -> lget (str_lower (s2l ":re:" ++ E)) init_filters = None.
+  Proof.
+    destruct E as [|e E]; [congruence|]. intros _. vm_compute. reflexivity.
+  Qed.
+End Verbatim.
+
+(* ------------------------------------------------- numbering is irrelevant *)
+Fixpoint shape (r : re) : re :=
+  match r with
+  | Seq a b => Seq (shape a) (shape b)
+  | Alt a b => Alt (shape a) (shape b)
+  | Star a => Star (shape a)
+  | Group _ _ a => Group 0 None (shape a)
+  | x => x
+  end.
+
+Lemma matches_shape U r s rest :
+  Matches U r s rest -> forall r', shape r = shape r' -> Matches U r' s rest.
+Proof.
+  induction 1; intros r' E; destruct r'; cbn [shape] in E; try discriminate.
+  - constructor.
+  - injection E as <- <-. constructor. assumption.
+  - injection E as E1 E2. constructor; auto.
+  - injection E as E1 E2. apply MAltL. auto.
+  - injection E as E1 E2. apply MAltR. auto.
+  - constructor.
+  - injection E as E1. constructor; [auto|]. apply IHMatches2.
+    cbn [shape]. f_equal. assumption.
+  - injection E as E1. constructor. auto.
+  - constructor.
+  - constructor.
+  - constructor.
+Qed.
+
+Lemma shape_Times k x y : shape x = shape y -> shape (Times k x) = shape (Times k y).
+Proof. intros E. induction k; cbn [Times shape]; congruence. Qed.
+Lemma shape_UpTo k x y : shape x = shape y -> shape (UpTo k x) = shape (UpTo k y).
+Proof. intros E. induction k; cbn [UpTo shape]; congruence. Qed.
+
+Lemma shape_lower a : forall n m, shape (fst (lower a n)) = shape (fst (lower a m)).
+Proof.
+  induction a; intros n m; cbn [lower]; try reflexivity.
+  - destruct (lower a1 n) as [x1 k1] eqn:E1. destruct (lower a2 k1) as [x2 k2] eqn:E2.
+    destruct (lower a1 m) as [y1 j1] eqn:E3. destruct (lower a2 j1) as [y2 j2] eqn:E4.
+    cbn [fst shape]. f_equal.
+    + specialize (IHa1 n m). rewrite E1, E3 in IHa1. exact IHa1.
+    + specialize (IHa2 k1 j1). rewrite E2, E4 in IHa2. exact IHa2.
+  - destruct (lower a1 n) as [x1 k1] eqn:E1. destruct (lower a2 k1) as [x2 k2] eqn:E2.
+    destruct (lower a1 m) as [y1 j1] eqn:E3. destruct (lower a2 j1) as [y2 j2] eqn:E4.
+    cbn [fst shape]. f_equal.
+    + specialize (IHa1 n m). rewrite E1, E3 in IHa1. exact IHa1.
+    + specialize (IHa2 k1 j1). rewrite E2, E4 in IHa2. exact IHa2.
+  - specialize (IHa n m). destruct (lower a n), (lower a m). cbn [fst shape] in *.
+    congruence.
+  - specialize (IHa n m). destruct (lower a n), (lower a m).
+    cbn [fst shape Plus] in *. congruence.
+  - specialize (IHa n m). destruct (lower a n), (lower a m).
+    cbn [fst shape Opt] in *. congruence.
+  - specialize (IHa n m). destruct (lower a n), (lower a m).
+    cbn [fst] in *. unfold Repeat. cbn [shape]. f_equal.
+    + apply shape_Times. assumption.
+    + destruct hi; [apply shape_UpTo; assumption|]. cbn [shape]. congruence.
+  - specialize (IHa (S n) (S m)). destruct (lower a (S n)), (lower a (S m)).
+    cbn [fst shape] in *. congruence.
+Qed.
+
+Lemma lower_matches U a n m s rest :
+  Matches U (fst (lower a n)) s rest <-> Matches U (fst (lower a m)) s rest.
+Proof.
+  split; intros H; eapply matches_shape; eauto using shape_lower.
+Qed.
+
+Lemma anchor_free_shape r : anchor_free (shape r) = anchor_free r.
+Proof. induction r; cbn [shape anchor_free]; congruence. Qed.
+
+Lemma lower_anchor_free a n m :
+  anchor_free (fst (lower a n)) = anchor_free (fst (lower a m)).
+Proof.
+  rewrite <- (anchor_free_shape (fst (lower a n))), (shape_lower a n m).
+  apply anchor_free_shape.
+Qed.
+
+(* ------------------------------------------------------ group index ranges *)
+Lemma in_groups_Times g k x : In g (groups_of (Times k x)) -> In g (groups_of x).
+Proof.
+  induction k; cbn [Times groups_of]; [contradiction|].
+  intros H. apply in_app_or in H as [H|H]; auto.
+Qed.
+Lemma in_groups_UpTo g k x : In g (groups_of (UpTo k x)) -> In g (groups_of x).
+Proof.
+  induction k; cbn [UpTo groups_of]; [contradiction|].
+  intros H. apply in_app_or in H as [H|H]; [|contradiction].
+  apply in_app_or in H as [H|H]; auto.
+Qed.
+
+Lemma lower_range a : forall n r n',
+  lower a n = (r, n') ->
+  (n <= n')%nat /\
+  forall i nm, In (i, nm) (groups_of r) -> (n <= i < n')%nat.
+Proof.
+  induction a; intros n r n' H; cbn [lower] in H.
+  - injection H as <- <-. split; [lia|]. contradiction.
+  - injection H as <- <-. split; [lia|]. contradiction.
+  - destruct (lower a1 n) as [x1 k1] eqn:E1. destruct (lower a2 k1) as [x2 k2] eqn:E2.
+    injection H as <- <-. destruct (IHa1 _ _ _ E1) as [L1 R1].
+    destruct (IHa2 _ _ _ E2) as [L2 R2]. split; [lia|].
+    intros i nm Hin. cbn [groups_of] in Hin. apply in_app_or in Hin as [Hin|Hin].
+    + specialize (R1 _ _ Hin). lia.
+    + specialize (R2 _ _ Hin). lia.
+  - destruct (lower a1 n) as [x1 k1] eqn:E1. destruct (lower a2 k1) as [x2 k2] eqn:E2.
+    injection H as <- <-. destruct (IHa1 _ _ _ E1) as [L1 R1].
+    destruct (IHa2 _ _ _ E2) as [L2 R2]. split; [lia|].
+    intros i nm Hin. cbn [groups_of] in Hin. apply in_app_or in Hin as [Hin|Hin].
+    + specialize (R1 _ _ Hin). lia.
+    + specialize (R2 _ _ Hin). lia.
+  - destruct (lower a n) as [x k] eqn:E. injection H as <- <-.
+    destruct (IHa _ _ _ E) as [L R]. split; [lia|]. exact R.
+  - destruct (lower a n) as [x k] eqn:E. injection H as <- <-.
+    destruct (IHa _ _ _ E) as [L R]. split; [lia|].
+    intros i nm Hin. cbn [Plus groups_of] in Hin.
+    apply in_app_or in Hin as [Hin|Hin]; eauto.
+  - destruct (lower a n) as [x k] eqn:E. injection H as <- <-.
+    destruct (IHa _ _ _ E) as [L R]. split; [lia|].
+    intros i nm Hin. cbn [Opt groups_of] in Hin.
+    apply in_app_or in Hin as [Hin|Hin]; [eauto|contradiction].
+  - destruct (lower a n) as [x k] eqn:E. injection H as <- <-.
+    destruct (IHa _ _ _ E) as [L R]. split; [lia|].
+    intros i nm Hin. unfold Repeat in Hin. cbn [groups_of] in Hin.
+    apply in_app_or in Hin as [Hin|Hin].
+    + apply in_groups_Times in Hin. eauto.
+    + destruct hi; [apply in_groups_UpTo in Hin|cbn [groups_of] in Hin]; eauto.
+  - destruct (lower a (S n)) as [x k] eqn:E. injection H as <- <-.
+    destruct (IHa _ _ _ E) as [L R]. split; [lia|].
+    intros i nm Hin. cbn [groups_of] in Hin. destruct Hin as [Hin|Hin].
+    + injection Hin as <- _. lia.
+    + specialize (R _ _ Hin). lia.
+  - injection H as <- <-. split; [lia|]. contradiction.
+  - injection H as <- <-. split; [lia|]. contradiction.
+Qed.
+
+(* ------------------------------------------- captures-annotated inversions *)
+Section CapsInv.
+  Variable U : uclass.
+  Notation MatchesC := (MatchesC U).
+
+  Lemma seqC_inv a b s rest c c' :
+    MatchesC (Seq a b) s rest c c' ->
+    exists s1 s2 c1, s = s1 ++ s2 /\ MatchesC a s1 (s2 ++ rest) c c1 /\
+                     MatchesC b s2 rest c1 c'.
+  Proof. intros H. inversion H; subst. eauto 8. Qed.
+
+  Lemma clsC_inv neg items s rest c c' :
+    MatchesC (Cls neg items) s rest c c' ->
+    exists ch, s = [ch] /\ cls_match U neg items ch = true /\ c' = c.
+  Proof. intros H. inversion H; subst. eauto. Qed.
+
+  Lemma groupC_inv i nm a s rest c c' :
+    MatchesC (Group i nm a) s rest c c' ->
+    exists c0, c' = (i, s) :: c0 /\ MatchesC a s rest c c0.
+  Proof. intros H. inversion H; subst. eauto. Qed.
+
+  Lemma endzC_inv s rest c c' :
+    MatchesC EndZ s rest c c' -> s = [] /\ rest = [] /\ c' = c.
+  Proof. intros H. inversion H; subst. auto. Qed.
+
+  Lemma epsC_inv s rest c c' : MatchesC Eps s rest c c' -> s = [] /\ c' = c.
+  Proof. intros H. inversion H; subst. auto. Qed.
+
+  (* a parse writes only the groups of the expression *)
+  Lemma caps_frame r s rest c c' :
+    MatchesC r s rest c c' ->
+    forall i, (forall nm, ~ In (i, nm) (groups_of r)) -> cap_get i c' = cap_get i c.
+  Proof.
+    induction 1; intros j Hj; try reflexivity.
+    - rewrite IHMatchesC2, IHMatchesC1; [reflexivity| |];
+        intros nm Hin; apply (Hj nm); cbn [groups_of]; apply in_or_app; auto.
+    - apply IHMatchesC. intros nm Hin. apply (Hj nm). cbn [groups_of].
+      apply in_or_app; auto.
+    - apply IHMatchesC. intros nm Hin. apply (Hj nm). cbn [groups_of].
+      apply in_or_app; auto.
+    - rewrite IHMatchesC2, IHMatchesC1; [reflexivity| |]; assumption.
+    - cbn [cap_get]. destruct (Nat.eqb j i) eqn:E.
+      + apply Nat.eqb_eq in E. subst j. exfalso. apply (Hj nm). left. reflexivity.
+      + apply IHMatchesC. intros nm' Hin. apply (Hj nm'). right. assumption.
+  Qed.
+End CapsInv.
+
+Lemma chr_match U c x : cls_match U false [IChr c] x = true <-> x = c.
+Proof.
+  unfold cls_match. cbn [existsb item_match]. rewrite orb_false_r.
+  destruct (x =? c) eqn:E; cbn [xorb].
+  - apply Z.eqb_eq in E. split; auto.
+  - apply Z.eqb_neq in E. split; [discriminate|contradiction].
+Qed.
+
+Lemma name_index_ok gs :
+  names_ok gs = true -> forall i nm, In (i, Some nm) gs -> name_index nm gs = Some i.
+Proof.
+  induction gs as [|[j [x|]] gs IH]; cbn [names_ok name_index]; intros Hok i nm Hin.
+  - contradiction.
+  - apply andb_true_iff in Hok as [H1 H2]. destruct Hin as [E|Hin].
+    + injection E as -> ->. rewrite lz_eqb_refl. reflexivity.
+    + destruct (lz_eqb nm x) eqn:E.
+      * apply lz_eqb_eq in E. subst x.
+        rewrite forallb_forall in H1. specialize (H1 _ Hin). cbn in H1.
+        rewrite lz_eqb_refl in H1. cbn [negb orb] in H1.
+        apply Nat.eqb_eq in H1. subst. reflexivity.
+      * apply IH; assumption.
+  - destruct Hin as [E|Hin]; [discriminate|]. apply IH; assumption.
+Qed.
+
+Lemma Forall2_imp {A B} (P Q : A -> B -> Prop) l1 l2 :
+  (forall a b, P a b -> Q a b) -> Forall2 P l1 l2 -> Forall2 Q l1 l2.
+Proof. intros H. induction 1; constructor; auto. Qed.
+
+(* ================================================== the language of a route *)
+Section Lang.
+  Variable U : uclass.
+  Variable F : ftab.
+  Notation Matches := (Matches U).
+  Notation MatchesC := (MatchesC U).
+
+  (* a parse of the compiled expression is a reading of the path as literal
+     text and filter-accepted segments; the group of each <name> holds its
+     segment; nothing follows the path *)
+  Lemma build_sem ps : forall a,
+    s_build F ps = Some a -> forall n r n', lower a n = (r, n') ->
+    forall s rest c c', MatchesC r s rest c c' ->
+      rest = [] /\
+      exists vs, Segments U F ps s vs /\
+        Forall2 (fun nm v => exists i, In (i, Some nm) (groups_of r) /\
+                                       cap_get i c' = Some v)
+                (grp_names ps) vs /\
+        (forall i, (i < n)%nat -> cap_get i c' = cap_get i c).
+  Proof.
+    induction ps as [|[ch|nm filt] ps IH]; intros a Hb n r n' Hl s rest c c' Hm;
+      cbn [s_build] in Hb.
+    - injection Hb as <-. cbn [lower] in Hl. injection Hl as <- <-.
+      apply seqC_inv in Hm as (s1 & s2 & c1 & -> & H1 & H2).
+      apply endzC_inv in H1 as (-> & H1 & ->).
+      apply epsC_inv in H2 as (-> & ->). cbn [List.app] in H1. subst rest.
+      split; [reflexivity|]. exists []. repeat split; constructor.
+    - destruct (is_meta ch); [discriminate|].
+      destruct (s_build F ps) as [b|] eqn:Eb; [|discriminate].
+      injection Hb as <-. cbn [lower] in Hl.
+      destruct (lower b n) as [rb nb] eqn:Elb. injection Hl as <- <-.
+      apply seqC_inv in Hm as (s1 & s2 & c1 & -> & H1 & H2).
+      apply clsC_inv in H1 as (x & -> & Hx & ->). apply chr_match in Hx. subst x.
+      destruct (IH b eq_refl n rb nb Elb s2 rest c c' H2) as (Hr & vs & Hs & Hf & Hk).
+      split; [assumption|]. exists vs. repeat split.
+      + cbn [List.app]. constructor. assumption.
+      + cbn [grp_names]. eapply Forall2_imp; [|exact Hf].
+        intros nm v (i & Hin & Hc). exists i. split; [|assumption].
+        cbn [groups_of]. assumption.
+      + assumption.
+    - destruct (name_ok nm); [|discriminate].
+      destruct (regex_of F filt) as [ft|] eqn:Er; [|discriminate].
+      destruct (parse_sre ft) as [af|] eqn:Ep; [|discriminate].
+      destruct (anchor_free (fst (lower af 0))) eqn:Ea; [|discriminate].
+      destruct (s_build F ps) as [b|] eqn:Eb; [|discriminate].
+      injection Hb as <-. cbn [lower] in Hl.
+      destruct (lower af (S n)) as [ra na] eqn:Ela.
+      destruct (lower b na) as [rb nb] eqn:Elb. injection Hl as <- <-.
+      apply seqC_inv in Hm as (s1 & s2 & c1 & -> & H1 & H2).
+      apply groupC_inv in H1 as (c0 & -> & H1).
+      destruct (IH b eq_refl na rb nb Elb s2 rest _ c' H2) as (Hr & vs & Hs & Hf & Hk).
+      destruct (lower_range af (S n) ra na Ela) as [La Ra].
+      split; [assumption|]. exists (s1 :: vs). repeat split.
+      + constructor; [|assumption]. exists ft, af. repeat split; try assumption.
+        apply matchesC_erase in H1.
+        apply (lower_matches U af (S n) 0). rewrite Ela. cbn [fst].
+        eapply matches_ctx_indep; [exact H1|].
+        rewrite <- Ea. pose proof (lower_anchor_free af (S n) 0) as Q.
+        rewrite Ela in Q. exact Q.
+      + cbn [grp_names]. constructor.
+        * exists n. split; [cbn [groups_of]; left; reflexivity|].
+          rewrite Hk by lia. cbn [cap_get]. rewrite Nat.eqb_refl. reflexivity.
+        * eapply Forall2_imp; [|exact Hf].
+          intros nm' v (i & Hin & Hc). exists i. split; [|assumption].
+          cbn [groups_of]. right. apply in_or_app. right. assumption.
+      + intros i Hi. rewrite Hk by lia. cbn [cap_get].
+        replace (Nat.eqb i n) with false by (symmetry; apply Nat.eqb_neq; lia).
+        eapply caps_frame; [exact H1|]. intros nm' Hin.
+        specialize (Ra _ _ Hin). lia.
+  Qed.
+
+  (* conversely every such reading is matched by the compiled expression *)
+  Lemma build_complete ps : forall a,
+    s_build F ps = Some a -> forall n p vs,
+    Segments U F ps p vs -> Matches (fst (lower a n)) p [].
+  Proof.
+    induction ps as [|[ch|nm filt] ps IH]; intros a Hb n p vs Hs;
+      cbn [s_build] in Hb.
+    - injection Hb as <-. inversion Hs; subst. cbn [lower fst].
+      apply (MSeq U EndZ Eps [] [] []); constructor.
+    - destruct (is_meta ch); [discriminate|].
+      destruct (s_build F ps) as [b|] eqn:Eb; [|discriminate].
+      injection Hb as <-.
+      inversion Hs as [|c0 ps0 p0 vs0 Hs'|]; subst. cbn [lower].
+      destruct (lower b n) as [rb nb] eqn:Elb. cbn [fst].
+      apply (MSeq U _ rb [ch] p0 []).
+      + constructor. apply chr_match. reflexivity.
+      + specialize (IH b eq_refl n p0 vs Hs'). rewrite Elb in IH. exact IH.
+    - destruct (name_ok nm); [|discriminate].
+      destruct (regex_of F filt) as [ft|] eqn:Er; [|discriminate].
+      destruct (parse_sre ft) as [af|] eqn:Ep; [|discriminate].
+      destruct (anchor_free (fst (lower af 0))) eqn:Ea; [|discriminate].
+      destruct (s_build F ps) as [b|] eqn:Eb; [|discriminate].
+      injection Hb as <-.
+      inversion Hs as [| |nm0 filt0 ps0 v p0 vs0 Hfa Hs']; subst. cbn [lower].
+      destruct (lower af (S n)) as [ra na] eqn:Ela.
+      destruct (lower b na) as [rb nb] eqn:Elb. cbn [fst].
+      destruct Hfa as (ft' & af' & Er' & Ep' & Hv).
+      rewrite Er in Er'. injection Er' as <-. rewrite Ep in Ep'.
+      injection Ep' as <-.
+      apply (MSeq U _ rb v p0 []).
+      + constructor.
+        assert (Q : Matches (fst (lower af (S n))) v (p0 ++ [])).
+        { apply (lower_matches U af (S n) 0).
+          eapply matches_ctx_indep; [exact Hv|exact Ea]. }
+        rewrite Ela in Q. exact Q.
+      + specialize (IH b eq_refl na p0 vs0 Hs'). rewrite Elb in IH. exact IH.
+  Qed.
+
+  (* the heart: a <name:filter> route matches exactly the paths that consist
+     of its literal text and filter-accepted segments, whole path *)
+  Theorem route_language uri r n p :
+    compile_route U F uri = Some (r, n) ->
+    (accepts U r p = true <-> InRoute U F uri p).
+  Proof.
+    unfold compile_route, InRoute, finish_regex. intros H.
+    destruct (has_group (scan_uri U uri)); [|discriminate].
+    destruct (s_build F (scan_uri U uri)) as [a|] eqn:Eb; [|discriminate].
+    destruct (lower a 0) as [r0 n0] eqn:El.
+    destruct (names_ok (groups_of r0)); [|discriminate].
+    injection H as <- <-. rewrite accepts_correct. split.
+    - intros Hm. destruct (matches_annotate U _ _ _ Hm []) as (c' & Hc).
+      destruct (build_sem _ a Eb 0%nat r0 n0 El p [] [] c' Hc) as (_ & vs & Hs & _).
+      exists vs. assumption.
+    - intros (vs & Hs). pose proof (build_complete _ a Eb 0%nat p vs Hs) as Q.
+      rewrite El in Q. exact Q.
+  Qed.
+
+  (* pattern.match (anchored at the start only) decides the same language:
+     the expression ends in \Z *)
+  Lemma s_build_anchored ps a n :
+    s_build F ps = Some a -> forall s rest,
+    Matches (fst (lower a n)) s rest -> rest = [].
+  Proof.
+    intros Hb s rest Hm.
+    destruct (matches_annotate U _ _ _ Hm []) as (c' & Hc).
+    destruct (lower a n) as [r n'] eqn:El.
+    destruct (build_sem _ a Hb n r n' El s rest [] c' Hc) as (Hr & _).
+    exact Hr.
+  Qed.
+
+  Theorem route_language_match uri r n p :
+    compile_route U F uri = Some (r, n) ->
+    (re_match U r p <> None <-> InRoute U F uri p).
+  Proof.
+    intros H. rewrite <- (route_language uri r n p H), accepts_correct,
+      re_match_some_iff.
+    unfold compile_route, finish_regex in H.
+    destruct (has_group (scan_uri U uri)); [|discriminate].
+    destruct (s_build F (scan_uri U uri)) as [a|] eqn:Eb; [|discriminate].
+    destruct (lower a 0) as [r0 n0] eqn:El.
+    destruct (names_ok (groups_of r0)); [|discriminate].
+    injection H as <- <-. split.
+    - intros (s1 & s2 & -> & Hm).
+      assert (s2 = []).
+      { eapply (s_build_anchored _ a 0%nat Eb). rewrite El. exact Hm. }
+      subst s2. rewrite app_nil_r. assumption.
+    - intros Hm. exists p, []. split; [symmetry; apply app_nil_r|assumption].
+  Qed.
+
+  Lemma converters_names ps : forall cvs,
+    converters F ps = Ok cvs -> map fst cvs = grp_names ps.
+  Proof.
+    induction ps as [|[ch|nm filt] ps IH]; intros cvs H; cbn [converters] in H.
+    - injection H as <-. reflexivity.
+    - cbn [grp_names]. auto.
+    - destruct (conv_of F filt); [|discriminate].
+      destruct (converters F ps) as [l|]; [|discriminate].
+      injection H as <-. cbn [map fst grp_names]. f_equal. auto.
+  Qed.
+
+  Lemma convert_all_segs r c : forall cvs vs,
+    Forall2 (fun nm v => group_by_name r c nm = Some v) (map fst cvs) vs ->
+    convert_all U r c cvs = convert_segs U cvs vs.
+  Proof.
+    induction cvs as [|[g cv] cvs IH]; intros vs Hf; cbn [map] in Hf;
+      inversion Hf; subst; cbn [convert_all convert_segs]; [reflexivity|].
+    cbn [fst] in *. rewrite H1.
+    destruct (apply_conv U cv y); try reflexivity.
+    rewrite (IH l' H3). reflexivity.
+  Qed.
+
+  (* the handler's arguments: converter i applied to segment i, in
+     declaration order, under the declared names *)
+  Theorem captures_by_name uri r n cvs p c rest :
+    compile_route U F uri = Some (r, n) ->
+    converters F (scan_uri U uri) = Ok cvs ->
+    re_match U r p = Some (c, rest) ->
+    exists vs,
+      rest = [] /\ Segments U F (scan_uri U uri) p vs /\
+      map fst cvs = grp_names (scan_uri U uri) /\
+      convert_all U r c cvs = convert_segs U cvs vs.
+  Proof.
+    unfold compile_route, finish_regex. intros H Hc Hm.
+    destruct (has_group (scan_uri U uri)); [|discriminate].
+    destruct (s_build F (scan_uri U uri)) as [a|] eqn:Eb; [|discriminate].
+    destruct (lower a 0) as [r0 n0] eqn:El.
+    destruct (names_ok (groups_of r0)) eqn:En; [|discriminate].
+    injection H as <- <-.
+    apply re_match_sound in Hm as (s1 & -> & Hm).
+    destruct (build_sem _ a Eb 0%nat r0 n0 El s1 rest [] c Hm)
+      as (-> & vs & Hs & Hf & _).
+    exists vs. rewrite app_nil_r. repeat split; try assumption.
+    - apply converters_names. assumption.
+    - apply convert_all_segs. rewrite (converters_names _ _ Hc).
+      eapply Forall2_imp; [|exact Hf].
+      intros nm v (i & Hin & Hg). unfold group_by_name.
+      rewrite (name_index_ok _ En _ _ Hin). assumption.
+  Qed.
+End Lang.
+
+(* ====================================== text pipeline = structured compiler *)
+(* What the code does is build a pattern *text* and hand it to re.compile.
+   [compile_bridge]: whenever the structured compiler accepts a route,
+   parsing that text gives exactly the structured expression, so that
+   [route_language] and [captures_by_name] speak about the pattern the
+   application stores. *)
+Lemma meta_facts c :
+  is_meta c = false ->
+  (c =? 36) = false /\ (c =? 40) = false /\ (c =? 41) = false /\
+  (c =? 42) = false /\ (c =? 43) = false /\ (c =? 46) = false /\
+  (c =? 63) = false /\ (c =? 91) = false /\ (c =? 92) = false /\
+  (c =? 123) = false /\ (c =? 124) = false.
+Proof.
+  unfold is_meta. intros H.
+  repeat match type of H with
+         | (_ || _) = false => apply orb_false_iff in H as [H ?]
+         end.
+  repeat split; assumption.
+Qed.
+
+Lemma p_quant_plain a c t :
+  is_quant_char c = false -> p_quant a (c :: t) = Some (a, c :: t).
+Proof.
+  unfold is_quant_char, p_quant. intros H.
+  repeat match type of H with
+         | (_ || _) = false => apply orb_false_iff in H as [H ?]
+         end.
+  rewrite H, H0, H1, H2. reflexivity.
+Qed.
+
+Lemma p_name_ok rest : forall nm acc,
+  forallb ascii_word nm = true ->
+  p_name (nm ++ 62 :: rest) acc =
+  match rev acc ++ nm with
+  | [] => None
+  | y :: l => if ident_start y then Some (y :: l, rest) else None
+  end.
+Proof.
+  induction nm as [|c nm IH]; intros acc Hw; cbn [List.app p_name].
+  - replace (62 =? 62) with true by reflexivity. rewrite app_nil_r.
+    destruct (rev acc); reflexivity.
+  - cbn [forallb] in Hw. apply andb_true_iff in Hw as [H1 H2].
+    destruct (c =? 62) eqn:E.
+    + apply Z.eqb_eq in E. subst c. discriminate.
+    + rewrite H1, (IH _ H2). cbn [rev]. rewrite <- app_assoc. reflexivity.
+Qed.
+
+Lemma p_seq_S f t :
+  p_seq (S f) t =
+  if at_stop t then Some (SEps, t)
+  else match p_atom f t with
+       | Some (a, t1) =>
+           match p_quant a t1 with
+           | Some (q, t2) =>
+               match p_seq f t2 with
+               | Some (b, t3) => Some (SSeq q b, t3)
+               | None => None
+               end
+           | None => None
+           end
+       | None => None
+       end.
+Proof. reflexivity. Qed.
+
+Lemma p_atom_S f c t1 :
+  p_atom (S f) (c :: t1) =
+  if c =? 40 then
+    match p_ghead t1 with
+    | Some (g, t2) =>
+        match p_alt f t2 with
+        | Some (a, t3) =>
+            match t3 with
+            | d :: t4 =>
+                if d =? 41 then
+                  Some (match g with GCap nm => SGroup nm a | GNon => a end, t4)
+                else None
+            | [] => None
+            end
+        | None => None
+        end
+    | None => None
+    end
+  else p_simple c t1.
+Proof. reflexivity. Qed.
+
+Section Bridge.
+  Variable F : ftab.
+
+  Lemma s_build_text ps : forall a,
+    s_build F ps = Some a -> exists t, compile_parts F ps = Ok t.
+  Proof.
+    induction ps as [|[ch|nm filt] ps IH]; intros a H; cbn [s_build] in H;
+      cbn [compile_parts].
+    - eauto.
+    - destruct (is_meta ch); [discriminate|].
+      destruct (s_build F ps) as [b|]; [|discriminate].
+      destruct (IH b eq_refl) as [t ->]. eauto.
+    - destruct (name_ok nm); [|discriminate].
+      destruct (regex_of F filt); [|discriminate].
+      destruct (parse_sre a0); [|discriminate].
+      destruct (anchor_free _); [|discriminate].
+      destruct (s_build F ps) as [b|]; [|discriminate].
+      destruct (IH b eq_refl) as [t ->]. eauto.
+  Qed.
+
+  (* the text of a route never starts with a quantifier *)
+  Lemma compile_head ps a t :
+    s_build F ps = Some a -> compile_parts F ps = Ok t ->
+    exists c t', t = c :: t' /\ is_quant_char c = false.
+  Proof.
+    destruct ps as [|[ch|nm filt] ps]; cbn [s_build compile_parts]; intros H1 H2.
+    - injection H2 as <-. eauto.
+    - destruct (is_meta ch) eqn:M; [discriminate|].
+      destruct (compile_parts F ps); [|discriminate]. injection H2 as <-.
+      exists ch, a0. split; [reflexivity|].
+      destruct (meta_facts ch M) as (_ & _ & _ & A & B & _ & C & _ & _ & D & _).
+      unfold is_quant_char. rewrite A, B, C, D. reflexivity.
+    - destruct (regex_of F filt); [|discriminate].
+      destruct (compile_parts F ps); [|discriminate]. injection H2 as <-.
+      cbn. eauto.
+  Qed.
+
+  Lemma parse_sre_alt t a :
+    parse_sre t = Some a -> p_alt (parse_fuel t) t = Some (a, []).
+  Proof.
+    unfold parse_sre. destruct (p_alt (parse_fuel t) t) as [[b [|c r]]|];
+      try discriminate. intros H. injection H as <-. reflexivity.
+  Qed.
+
+  Lemma bridge_seq ps : forall a t,
+    s_build F ps = Some a -> compile_parts F ps = Ok t ->
+    forall f, (3 * List.length t + 2 <= f)%nat -> p_seq f t = Some (a, []).
+  Proof.
+    induction ps as [|[ch|nm filt] ps IH]; intros a t Hb Hc f Hf.
+    - cbn [s_build compile_parts] in *. injection Hb as <-. injection Hc as <-.
+      cbn [List.length] in Hf.
+      destruct f as [|[|[|f]]]; try lia. reflexivity.
+    - cbn [s_build compile_parts] in *.
+      destruct (is_meta ch) eqn:M; [discriminate|].
+      destruct (s_build F ps) as [b|] eqn:Eb; [|discriminate].
+      destruct (compile_parts F ps) as [t'|] eqn:Ec; [|discriminate].
+      injection Hb as <-. injection Hc as <-. cbn [List.length] in Hf.
+      destruct f as [|[|f]]; try lia.
+      destruct (meta_facts ch M) as (A1 & A2 & A3 & A4 & A5 & A6 & A7 & A8 & A9 & A10 & A11).
+      destruct (compile_head ps b t' Eb Ec) as (c & t'' & -> & Hq).
+      rewrite p_seq_S. cbn [at_stop]. rewrite A3, A11. cbn [orb].
+      rewrite p_atom_S, A2.
+      unfold p_simple. rewrite A8, A9, A6, A1, M.
+      rewrite (p_quant_plain _ _ _ Hq).
+      rewrite (IH b _ eq_refl eq_refl (S f)); [reflexivity|].
+      cbn [List.length] in *. lia.
+    - cbn [s_build compile_parts] in *.
+      destruct (name_ok nm) eqn:Nm; [|discriminate].
+      destruct (regex_of F filt) as [ft|] eqn:Er; [|discriminate].
+      destruct (parse_sre ft) as [af|] eqn:Ep; [|discriminate].
+      destruct (anchor_free (fst (lower af 0))); [|discriminate].
+      destruct (s_build F ps) as [b|] eqn:Eb; [|discriminate].
+      destruct (compile_parts F ps) as [t'|] eqn:Ec; [|discriminate].
+      injection Hb as <-. injection Hc as <-.
+      destruct (compile_head ps b t' Eb Ec) as (c & t'' & -> & Hq).
+      change (s2l "(?P<") with [40; 63; 80; 60] in *.
+      repeat (cbn [List.length] in Hf; rewrite ?app_length in Hf).
+      destruct f as [|[|f]]; try lia.
+      cbn [List.app].
+      rewrite p_seq_S. cbn [at_stop].
+      replace ((40 =? 41) || (40 =? 124)) with false by reflexivity.
+      rewrite p_atom_S. replace (40 =? 40) with true by reflexivity.
+      unfold p_ghead.
+      replace (63 =? 63) with true by reflexivity.
+      replace (80 =? 58) with false by reflexivity.
+      replace (80 =? 80) with true by reflexivity.
+      replace (60 =? 60) with true by reflexivity.
+      (* the name *)
+      unfold name_ok in Nm. destruct nm as [|y nm]; [discriminate|].
+      apply andb_true_iff in Nm as [N1 N2].
+      assert (Hw : forallb ascii_word (y :: nm) = true).
+      { cbn [forallb]. rewrite N2, andb_true_r.
+        unfold ident_start in N1. unfold ascii_word.
+        apply orb_true_iff in N1 as [N1|N1];
+          [apply orb_true_iff in N1 as [N1|N1]|]; rewrite N1;
+          rewrite ?orb_true_r; reflexivity. }
+      change ((y :: nm) ++ [62] ++ ft ++ [41] ++ c :: t'')
+        with ((y :: nm) ++ 62 :: ft ++ 41 :: c :: t'').
+      rewrite (p_name_ok _ _ [] Hw). cbn [rev List.app]. rewrite N1.
+      (* the filter expression, read inside the parentheses *)
+      apply parse_sre_alt in Ep.
+      rewrite (p_alt_ext (c :: t'') (parse_fuel ft) ft af [] f Ep);
+        [|unfold parse_fuel; lia].
+      cbn [List.app]. replace (41 =? 41) with true by reflexivity.
+      rewrite (p_quant_plain _ _ _ Hq).
+      rewrite (IH b _ eq_refl eq_refl (S f)); [reflexivity|].
+      cbn [List.length] in *. lia.
+  Qed.
+
+  Theorem bridge_parts ps a :
+    s_build F ps = Some a ->
+    exists t, compile_parts F ps = Ok t /\ parse_sre t = Some a.
+  Proof.
+    intros Hb. destruct (s_build_text ps a Hb) as [t Ht]. exists t.
+    split; [assumption|]. unfold parse_sre, parse_fuel.
+    replace (3 * List.length t + 3)%nat with (S (3 * List.length t + 2)) by lia.
+    cbn [p_alt]. rewrite (bridge_seq ps a t Hb Ht); [reflexivity|lia].
+  Qed.
+End Bridge.
+
+Theorem compile_bridge U F uri r n :
+  compile_route U F uri = Some (r, n) ->
+  exists t, compile_text U F uri = Ok t /\ parse_regex t = Some (r, n).
+Proof.
+  unfold compile_route, compile_text, parse_regex. intros H.
+  destruct (has_group (scan_uri U uri)); [|discriminate].
+  destruct (s_build F (scan_uri U uri)) as [a|] eqn:Eb; [|discriminate].
+  destruct (bridge_parts F _ a Eb) as (t & Ht & Hp).
+  exists t. rewrite Hp. auto.
+Qed.
+
+(* ================================================================= examples *)
+(* non-vacuity of the hypotheses above, and the trailing-newline question:
+   with \Z at the end of the generated pattern "/i/12\n" is NOT in the
+   language of /i/<n:int> (it was with "$"); a segment may contain a
+   newline only where its filter admits one ([^/]+ does). *)
+Definition U0 : uclass := mkU (fun _ => false) (fun _ => false) (fun _ => false)
+                              (fun _ => 0).
+
+Example int_route_newline : forall U,
+  exists r n,
+    compile_route U init_filters (s2l "/i/<n:int>") = Some (r, n) /\
+    re_match U r (s2l "/i/12") <> None /\
+    re_match U r (s2l "/i/12" ++ [10]) = None /\
+    re_match U r (s2l "/i/12/") = None /\
+    re_match U r (s2l "/I/12") = None.
+Proof.
+  intros U. eexists. eexists. split; [vm_compute; reflexivity|].
+  repeat split; vm_compute; try reflexivity. discriminate.
+Qed.
+
+Example dollar_accepts_newline :
+  match parse_regex (s2l "/i/(?P<n>-?\d+)$") with
+  | Some (r, _) => re_match U0 r (s2l "/i/12" ++ [10]) <> None
+  | None => False
+  end.
+Proof. vm_compute. discriminate. Qed.
+
+Example inline_case_preserved : forall U,
+  compile_text U init_filters (s2l "/r/<v:re:[A-Z]+\S>") =
+  Ok (s2l "/r/(?P<v>[A-Z]+\S)\Z").
+Proof. intros U. vm_compute. reflexivity. Qed.
+
+Example float_int_route : forall U,
+  exists r n cvs,
+    compile_route U init_filters (s2l "/f/<x:float>/<y:int>") = Some (r, n) /\
+    converters init_filters (scan_uri U (s2l "/f/<x:float>/<y:int>")) = Ok cvs /\
+    match re_match U r (s2l "/f/1.5/3") with
+    | Some (c, _) =>
+        convert_all U r c cvs =
+        Ok [(s2l "x", VFloat 3 2); (s2l "y", VInt 3)]
+    | None => False
+    end.
+Proof.
+  intros U. eexists. eexists. eexists.
+  split; [vm_compute; reflexivity|]. split; [vm_compute; reflexivity|].
+  vm_compute. reflexivity.
+Qed.
+
+(* a table meeting the hypotheses of first_pattern_wins with a skipped
+   pattern (it matches but lacks the method) *)
+Example precedence_example :
+  let '(a, _) := exec U0 init_app
+      [OpRegular (s2l "/a/\w+") 1 4;           (* POST only *)
+       OpRoute (s2l "/a/<n>") 2 3;             (* HEAD|GET *)
+       OpRoute (s2l "/a/b") 3 4;               (* static, POST only *)
+       OpRoute (s2l "/a/<n>") 4 256] in        (* same pattern, PATCH *)
+  select U0 a false false FsNone (s2l "GET") (s2l "/a/x") =
+    SHandler 2 [VStr (s2l "x")] [(s2l "n", VStr (s2l "x"))] (s2l "/a/<n>") /\
+  select U0 a false false FsNone (s2l "POST") (s2l "/a/x") =
+    SHandler 1 [] [] (s2l "/a/\w+") /\
+  select U0 a false false FsNone (s2l "GET") (s2l "/a/b") = S405 /\
+  select U0 a false false FsNone (s2l "PATCH") (s2l "/a/x") =
+    SHandler 4 [VStr (s2l "x")] [(s2l "n", VStr (s2l "x"))] (s2l "/a/<n>") /\
+  select U0 a false false FsNone (s2l "BREW") (s2l "/a/x") =
+    select U0 a false false FsNone (s2l "GET") (s2l "/a/x") /\
+  select U0 a false false FsNone (s2l "PUT") (s2l "/a/x") = S404 /\
+  map p_text (a_pats a) = [s2l "/a/\w+"; s2l "/a/(?P<n>[^/]+)\Z"].
+Proof. vm_compute. repeat split. Qed.
